@@ -67,7 +67,7 @@ from typing import Dict, List, Optional, Set, Tuple
 from .. import rx
 from ..cfg import Branch, cfg_of
 from ..flow import bind_args, cone, concat_operands, is_method_bound
-from ..index import AnalysisError, FuncNode, call_name, const, kwarg, last_attr, module_of, norm, short, walk_local
+from ..index import AnalysisError, FuncNode, call_name, calls_in, const, kwarg, last_attr, module_of, norm, short, walk_local
 from ..report import construct_of
 from ..tmpl import BASE, Leaf, RegexCall, ctor_arg, ctor_fields, is_param, leaves, method_of, pattern_text, regex_call, regex_module, resolves_to_class
 
@@ -1101,6 +1101,40 @@ def _r09f(chk, repo) -> None:
         chk.ok("R09f", "core templater classes", "no store to self outside __init__")
 
 
+def _r09g(chk, repo) -> None:
+    """``_substring_occurrences`` compares occurrence counts of a literal in the source and in the rendered text to
+    find invariant anchors; a count that skips overlapping occurrences (``))`` inside ``)))``) anchors a literal at an
+    earlier offset, the last slice stops short and the rendered text is trimmed to it."""
+    f = repo.fn("src/sqlfluff/core/helpers/string.py", "findall")
+    users = [c for q, g in repo.mod(PY).functions() for c in calls_in(g) if isinstance(c.func, ast.Name) and c.func.id == "findall"]
+    chk.count("R09g.slicer_uses_of_findall", len(users))
+    chk.floor("R09g.slicer_uses_of_findall", 1)
+    ys = [y for y in walk_local(f) if isinstance(y, ast.Yield) and isinstance(y.value, ast.Name)]
+    if not ys:
+        raise AnalysisError("R09g: findall no longer yields a position variable; re-confirm the anchor by hand")
+    pos = {y.value.id for y in ys}
+    n = 0
+    for l in [l for l in walk_local(f) if isinstance(l, ast.While)]:
+        for st in ast.walk(l):
+            if isinstance(st, ast.Assign) and len(st.targets) == 1 and isinstance(st.targets[0], ast.Name) and st.targets[0].id in pos \
+                    and isinstance(st.value, ast.Call) and last_attr(st.value) in ("find", "index"):
+                n += 1
+                a = st.value.args[1] if len(st.value.args) > 1 else None
+                ok = (
+                    isinstance(a, ast.BinOp) and isinstance(a.op, ast.Add)
+                    and ((isinstance(a.left, ast.Name) and a.left.id in pos and isinstance(a.right, ast.Constant) and a.right.value == 1)
+                         or (isinstance(a.right, ast.Name) and a.right.id in pos and isinstance(a.left, ast.Constant) and a.left.value == 1))
+                )
+                chk.require(
+                    ok, "R09g", st,
+                    f"findall resumes its search at `{short(a, 40) if a is not None else 'the start'}`, not one character after the last hit: overlapping occurrences are not counted, "
+                    "the python templater's slicer anchors a repeated-character literal (`))`, a blank line) too early and the rendered text is cut short",
+                    detail="findall: search resumes one character after the last hit",
+                )
+    chk.count("R09g.resume_sites", n)
+    chk.floor("R09g.resume_sites", 1)
+
+
 def run(chk) -> None:
     repo = chk.repo
     chk.rule("R09a", "the dotted-name rewrite of the python templater cannot swallow or mis-read escaped braces (regex AST: field-name atoms exclude '{' and '}', an escaped '{{' is skipped)")
@@ -1108,6 +1142,9 @@ def run(chk) -> None:
     chk.rule("R09c", "KNOWN_STYLES is well formed: distinct keys, compiling non-nullable patterns, capturing styles name a mandatory non-empty param_name, quotation is back-referenced")
     chk.rule("R09d", "placeholder process: output = source[PREV:START] + replacement per match + source[PREV:]; replacement is the context value or name of the matched/numbered parameter; slice records use the same bounds")
     chk.rule("R09e", "python templater: the same unmodified in_str feeds slice_file, the raw slicer, the render function and TemplatedFile.source_str; templated_str is slice_file's render result")
+
+    chk.rule("R09g", "the occurrence counter the python templater's slicer relies on (helpers.string.findall) reports every occurrence, overlapping ones included: after a hit at idx the search resumes at idx + 1")
+    _r09g(chk, repo)
 
     proc = repo.fn(PY, "PythonTemplater.process")
     cfg = cfg_of(proc)
@@ -1141,6 +1178,18 @@ def run(chk) -> None:
 from ..selftest import Variant  # noqa: E402
 
 VARIANTS = [
+    Variant(
+        "findall-skips-overlapping-occurrences", "src/sqlfluff/core/helpers/string.py",
+        "        idx = in_str.find(substr, idx + 1)\n",
+        "        idx = in_str.find(substr, idx + len(substr))\n",
+        "R09g", "findall", "seeded C09-3: `({inner}))` with a value ending in `)` loses its last bracket",
+    ),
+    Variant(
+        "quiet-findall-offset-written-the-other-way-round", "src/sqlfluff/core/helpers/string.py",
+        "        idx = in_str.find(substr, idx + 1)\n",
+        "        idx = in_str.find(substr, 1 + idx)\n",
+        "QUIET", None, "R09g: operands swapped",
+    ),
     Variant(
         "rewrite-escapes-by-lookaround", PY,
         'r"{{|}}|{([^:{}]*\\.[^:{}]*)(:\\S*?)?}", _dot_notation_hack, raw_str',
